@@ -150,6 +150,9 @@ type c11State struct {
 	// rule-specific marks carried along the path (immutable values)
 	pend *c11Pend
 	nl   *c11Pend
+	// rule C11.m (c11x.go): the cluster taken by the current iteration and not placed yet; a cluster that was dropped
+	clu  *c11Clu
+	drop *c11Drop
 }
 
 func c11NewState() *c11State {
@@ -184,7 +187,7 @@ func (s *c11State) clone() *c11State {
 	for k, v := range s.inLoop {
 		n.inLoop[k] = v
 	}
-	n.skipHead, n.pend, n.nl = s.skipHead, s.pend, s.nl
+	n.skipHead, n.pend, n.nl, n.clu, n.drop = s.skipHead, s.pend, s.nl, s.clu, s.drop
 	n.facts = append(c11Conj(nil), s.facts...)
 	return n
 }
@@ -207,6 +210,8 @@ type c11Frame struct {
 	onStop   func(st *c11State, b *cfg.Block)
 	onBranch func(st *c11State, b *cfg.Block, pol bool)
 	backs    map[*cfg.Block]*[]*c11State
+	// onBlock is called when a path enters block b (after the loop-head treatment, before its first node)
+	onBlock func(st *c11State, b *cfg.Block)
 }
 
 type c11Exec struct {
@@ -1387,6 +1392,9 @@ func (x *c11Exec) run(st *c11State, fr *c11Frame, b *cfg.Block, idx int, atEnd f
 				x.havocObj(st, o)
 			}
 			x.havocAddrTaken(st, fr)
+		}
+		if fr.onBlock != nil {
+			fr.onBlock(st, b)
 		}
 	}
 	cond := fr.g.BranchCond(b)
